@@ -33,7 +33,7 @@ def run(prop: str, tier: str) -> int:
         exhaustive = limit is None or len(cases) <= limit
         if not exhaustive:
             # keep every exists / delete case and every file_handle case whose filename has <= 1 token; sample the rest
-            keep = [c for c in cases if c['op'] != 'file_handle' or len(c['fn']) <= 1]
+            keep = [c for c in cases if c['op'] != 'file_handle' or len(c['fn']) <= 1 or c['op'].startswith('mut:')]
             rest = [c for c in cases if c['op'] == 'file_handle' and len(c['fn']) > 1]
             rnd.shuffle(rest)
             cases = keep + rest[:max(0, limit - len(keep))]
